@@ -110,7 +110,9 @@ def one(ctx, kind, ir, feat, opts, passes):
         if texts[k] != texts[k + 1]:
             tag, where = drift_tag(texts[k], texts[k + 1])
             # attribute to a parameter when its name occurs in the differing region
-            pname = next((n for n in feat["params"] if re.search(r"\b{}\b".format(re.escape(n)), where)), None)
+            # the entry the differing line belongs to (":param lr: ...", "lr : str", "  lr (str): ...", "lr: str = ..."), else any name in it
+            pname = next((n for n in feat["params"] if re.search(r"(?:^|\n)\s*(?::(?:param|cvar|type)\s+)?{}\s*[:(=]".format(re.escape(n)), where)), None) or \
+                next((n for n in feat["params"] if re.search(r"\b{}\b".format(re.escape(n)), where)), None)
             if pname is None and "return" in where.lower():
                 pf = feat["ret"]
             else:
